@@ -156,7 +156,12 @@ func VerifC18Validate() {
 	constraintTag := []string{"required", "min=2", "max=1", "min=1 max=2", "alpha", "omitempty min=2", "omitempty max=1"}[ci]
 	optional := nd.Bool()
 	hasValidate := nd.Bool()
+	usePrefix := nd.Bool() // the value is bound by prefix instead of through a value placeholder
 	tag := "${k:}"
+	if usePrefix {
+		tag = "k"
+		nd.Cover("validated value bound by prefix")
+	}
 	if hasValidate {
 		tag += ",validate=" + constraintTag
 	}
@@ -169,11 +174,21 @@ func VerifC18Validate() {
 	h := &vValidHolder{}
 	nd.Assert(va.PostProcessDefinitionRegistry(reg, h, "h") == nil, "scan ok")
 	meta := reg.GetMetaByName("h")
-	prop := component_definition.NewProperty(meta.Fields[0], component_definition.PropertyTypeConfiguration, "value", tag)
+	tagName := "value"
+	if usePrefix {
+		tagName = "prefix"
+	}
+	prop := component_definition.NewProperty(meta.Fields[0], component_definition.PropertyTypeConfiguration, tagName, tag)
 	props := []*component_definition.Property{prop}
 	cq := vQuoteProc(cfg)
 	vd := NewValidateAwarePostProcessors()
-	for _, p := range []container.InstantiationAwareComponentPostProcessor{cq, va} {
+	binders := []container.InstantiationAwareComponentPostProcessor{cq, va}
+	if usePrefix {
+		pa := NewPropertiesAwarePostProcessors().(*propertiesAwarePostProcessors)
+		pa.Configure = cfg
+		binders = []container.InstantiationAwareComponentPostProcessor{cq, pa}
+	}
+	for _, p := range binders {
 		_, err := p.PostProcessProperties(props, h, "h")
 		if err != nil {
 			nd.Cover("binding failed before validation")
@@ -331,4 +346,51 @@ func VerifC18ValidateStruct() {
 		nd.Assert(verdict != nil, "oracle: required applies to a struct-typed field")
 	}
 	nd.Assert((err != nil) == (verdict != nil), "C18: start-up fails exactly when the bound struct violates the stated constraints")
+}
+
+// C18 (b”): several expressions in one tag, literal text (also a closing brace) between and after
+// them - concrete texts, evaluated by the real expr-lang on both sides; every expression is
+// evaluated on its own substituted text and the field receives the pieces in place.
+func VerifC18MultiExpr() {
+	type tc struct {
+		tmpl  string
+		parts []string // alternating literal, expression, literal, ... (expressions with ${a}/${b} already substituted)
+	}
+	cases := []tc{
+		{"#{${a}+1}-#{${b}*2}", []string{"", "8000+1", "-", "40*2", ""}},
+		{"#{${a}}://h:#{${b}}", []string{"", "8000", "://h:", "40", ""}},
+		{"x#{1+1}}y", []string{"x", "1+1", "}y"}},
+		{"#{${a}>${b}}&#{1+1}", []string{"", "8000>40", "&", "1+1", ""}},
+	}
+	c := cases[nd.Choose(len(cases))]
+	cfg := &vCfg{keys: []string{"a", "b"}, vals: []any{8000, 40}}
+	reg := support.DefaultDefinitionRegistry()
+	va := NewValueAwarePostProcessors().(*valueAwarePostProcessors)
+	h := &vExprHolder{}
+	nd.Assert(va.PostProcessDefinitionRegistry(reg, h, "h") == nil, "scan ok")
+	meta := reg.GetMetaByName("h")
+	prop := component_definition.NewProperty(meta.Fields[0], component_definition.PropertyTypeConfiguration, "value", c.tmpl)
+	props := []*component_definition.Property{prop}
+	want := ""
+	for i, p := range c.parts {
+		if i%2 == 0 {
+			want += p
+			continue
+		}
+		ev, ok := vEval(p)
+		nd.Assert(ok, "oracle expression evaluates")
+		want += ev
+	}
+	cq := vQuoteProc(cfg)
+	ex := NewExpressionTagAwarePostProcessors()
+	for _, p := range []container.InstantiationAwareComponentPostProcessor{cq, ex, va} {
+		_, err := p.PostProcessProperties(props, h, "h")
+		nd.Assert(err == nil, "C18: resolving, evaluating and binding well-formed expressions succeeds")
+		if err != nil {
+			return
+		}
+	}
+	nd.Assert(prop.TagVal == want, "C18: every expression of a tag is evaluated on its own substituted text")
+	nd.Assert(h.F == want, "C18: the field receives the expressions' results in place")
+	nd.Cover("several expressions in one tag")
 }
